@@ -55,6 +55,21 @@ theorem stage_dispatch (db : Pipe.Db) (op : String) (opts : Val) (docs : List Va
     (op ≠ "$facet" → Pipe.runOp db op opts docs = Pipe.simpleStage db op opts docs) :=
   ⟨Pipe.Proofs.runStage_single db op opts docs, Pipe.Proofs.runOp_simple db op opts docs⟩
 
+/-- a stage must be a document with exactly one field: anything else — no operator, several
+    operators, not a document — makes the run raise (as MongoDB rejects the pipeline), whatever
+    the documents and whatever else the stage holds -/
+theorem stage_must_have_one_field (db : Pipe.Db) (st : Val) (docs : List Val)
+    (h : ∀ op opts, st ≠ .doc [(op, opts)]) :
+    ∃ e, e ≠ Err.unmodelled ∧ Pipe.runStage db st docs = .error e := by
+  refine Pipe.Proofs.runStage_rejected db st docs ?_
+  unfold stageRejected
+  split
+  · rename_i op opts; exact absurd rfl (h op opts)
+  · rfl
+
+example : ∀ op opts, Val.doc [("$skip", .int 1), ("$limit", .int 1)] ≠ .doc [(op, opts)] := by
+  intro op opts h; cases h
+
 /-- **facet_branches.** `$facet` returns ONE document whose field `title_i` holds the output of
     the i-th sub-pipeline run on the very same input. -/
 theorem facet_branches (db : Pipe.Db) (gs : Fields) (docs out : List Val)
@@ -116,19 +131,60 @@ theorem sort_eq_find_sort (spec : SortSpec) (docs : List Val)
 
 example : Spec.Order.specReasons [("a", -1), ("k", 1)] sample = [] := by decide +kernel
 
-/-- **skip_limit_eq_slice.** `$skip n` / `$limit n` with a non-negative `n` are `drop` / `take`;
-    for every argument the output is a suffix / prefix of the input. -/
-theorem skip_limit_eq_slice (n : Int) (docs : List Val) (h : 0 ≤ n) :
-    Pipe.skipStage (.int n) docs = .ok (docs.drop n.toNat) ∧
-    Pipe.limitStage (.int n) docs = .ok (docs.take n.toNat) :=
-  ⟨Pipe.Proofs.skipStage_nonneg n docs h, Pipe.Proofs.limitStage_nonneg n docs h⟩
+/-- **skip_limit_eq_slice.** `$skip n` with `n ≥ 0` / `$limit n` with `n > 0` are `drop` /
+    `take` — the slices `find().skip(n)` / `.limit(n)` take; every other integer is refused
+    (OperationFailure), as MongoDB refuses it. -/
+theorem skip_limit_eq_slice (n : Int) (docs : List Val) :
+    Pipe.skipStage (.int n) docs =
+      (if 0 ≤ n then .ok (docs.drop n.toNat) else .error .opFail) ∧
+    Pipe.limitStage (.int n) docs =
+      (if 0 < n then .ok (docs.take n.toNat) else .error .opFail) :=
+  ⟨Pipe.Proofs.skipStage_int n docs, Pipe.Proofs.limitStage_int n docs⟩
 
-example : (0 : Int) ≤ 2 := by decide
+/-- … and an argument that is not an integer (a boolean, a double, a string, null, …) is refused -/
+theorem skip_limit_rejects (o : Val) (docs : List Val) (h : ∀ n, o ≠ .int n) :
+    Pipe.skipStage o docs = .error .opFail ∧ Pipe.limitStage o docs = .error .opFail :=
+  ⟨Pipe.Proofs.skipStage_nonint o docs h, Pipe.Proofs.limitStage_nonint o docs h⟩
+
+example : ∀ n, Val.bool true ≠ .int n := by intro n h; cases h
 
 theorem skip_limit_infix (o : Val) (docs out : List Val) :
     (Pipe.skipStage o docs = .ok out → out <:+ docs) ∧
     (Pipe.limitStage o docs = .ok out → out <+: docs) :=
   ⟨Pipe.Proofs.skipStage_suffix o docs out, Pipe.Proofs.limitStage_prefix o docs out⟩
+
+/-- **skip_limit_eq_spec (partial).** For every argument that is not a double the oracle speaks
+    — documents, or REJECTED (`Spec.Pipe.argRejected`: not an integer, a negative `$skip`, a
+    `$limit` that is not positive) — and the handler answers accordingly, error cases included.
+    (A double is the remaining class `limitdouble`.) -/
+theorem skip_limit_eq_spec_partial (db : Pipe.Db) (op : String) (o : Val) (docs : List Val)
+    (hop : op = "$skip" ∨ op = "$limit") (h : ∀ m e, o ≠ .dbl m e) :
+    ∃ v, specStageV op o docs = some v ∧ v.agrees (Pipe.simpleStage db op o docs) := by
+  obtain ⟨⟨v, hv⟩, hD⟩ := Pipe.Proofs.slice_spec_total op o docs hop h
+  exact ⟨v, hv, Pipe.Proofs.stageV_eq_spec db op o docs v hD hv⟩
+
+example : (∀ m e, Val.int (-1) ≠ .dbl m e) ∧ (∀ m e, Val.str "1" ≠ .dbl m e) := by
+  constructor <;> intro m e h <;> cases h
+
+def agreeVB : R (List Val) → Option Verdict → Bool
+  | .ok a, some (.docs b) => beqList a b
+  | .error _, some .rejected => true
+  | _, none => true
+  | _, _ => false
+
+/-- the full-strength statement: whatever the argument, the handler follows the oracle's verdict -/
+def skip_limit_eq_spec_full : Prop :=
+  ∀ (o : Val) (docs : List Val),
+    agreeVB (Pipe.skipStage o docs) (specStageV "$skip" o docs) = true ∧
+    agreeVB (Pipe.limitStage o docs) (specStageV "$limit" o docs) = true
+
+/-- False of the code as it stands (known finding `limitdouble`): `$limit: 2.0` is refused (the
+    handler wants a Python `int`); MongoDB takes a double without fraction as the integer. -/
+theorem skip_limit_eq_spec_full_fails : ¬ skip_limit_eq_spec_full := by
+  intro h
+  have := (h (.dbl 2 0) [.doc [("_id", .int 0)], .doc [("_id", .int 1)], .doc [("_id", .int 2)]]).2
+  revert this
+  decide +kernel
 
 /-- **count_eq_length.** `$count: name` answers one document `{name: len(input)}` — the number
     `count_documents({})` computes (`countDocuments n 0 absent = n`) — and NO document when there
@@ -450,6 +506,37 @@ example : inD [.doc [("$match", .doc [("a", .doc [("$gt", .int 2)])])],
                .doc [("$unwind", .str "$l")], .doc [("$sort", .doc [("a", .int (-1))])],
                .doc [("$limit", .int 2)], .doc [("$count", .str "n")]] sample = true := by
   decide +kernel
+
+/-- **stage_rejected_spec.** What MongoDB rejects the code refuses: a `$limit` / `$skip` / `$count`
+    argument the rules do not accept raises OperationFailure whatever the input, and a pipeline
+    holding a rejected stage (or a stage that is not a one-field document) never answers
+    documents — wherever that stage stands and whatever the other stages are. -/
+theorem stage_rejected_spec (db : Pipe.Db) (op : String) (opts : Val) (docs : List Val)
+    (h : argRejected op opts = true) : Pipe.simpleStage db op opts docs = .error .opFail :=
+  Pipe.Proofs.argRejected_opFail db op opts docs h
+
+example : argRejected "$limit" (.int 0) = true ∧ argRejected "$skip" (.int (-1)) = true ∧
+    argRejected "$limit" (.dbl 5 1) = true ∧ argRejected "$count" (.str "a.b") = true ∧
+    argRejected "$limit" (.bool true) = true ∧ argRejected "$skip" (.int 0) = false := by
+  decide +kernel
+
+theorem pipeline_rejected_spec (db : Pipe.Db) (p docs : List Val)
+    (h : p.any stageRejected = true) : ∀ out, Pipe.runPipeline db p docs ≠ .ok out :=
+  Pipe.Proofs.runPipeline_rejected db p docs h
+
+example : [Val.doc [("$match", .doc [])], .doc [("$limit", .int (-1))]].any stageRejected = true ∧
+    [Val.doc [("$match", .doc [])], .doc []].any stageRejected = true := by decide +kernel
+
+/-- **pipelineV_eq_spec (on D).** `pipeline_eq_spec_partial` for the oracle's VERDICT: the
+    documents of `specPipeline`, or rejected. -/
+theorem pipelineV_eq_spec_partial (db : Pipe.Db) (p docs : List Val) (v : Verdict)
+    (hD : pipelineReasonsV p docs = []) (hs : specPipelineV p docs = some v) :
+    v.agrees (Pipe.runPipeline db p docs) :=
+  Pipe.Proofs.pipelineV_eq_spec db p docs v hD hs
+
+example : pipelineReasonsV [.doc [("$unwind", .str "$l")], .doc [("$skip", .int (-2))]] sample = [] ∧
+    (match specPipelineV [.doc [("$unwind", .str "$l")], .doc [("$skip", .int (-2))]] sample with
+     | some .rejected => true | _ => false) = true := by decide +kernel
 
 def agreeB : R (List Val) → Option (List Val) → Bool
   | .ok a, some b => beqList a b
@@ -796,6 +883,12 @@ theorem stageX_extends (db : Pipe.Db) (op : String) (opts : Val) (docs : List Va
     beq_eq_false_iff_ne, ne_eq] at h
   obtain ⟨h1, h2, h3, h4, h5⟩ := h
   simp [specStageX, stageReasonsX, h1, h2, h3, h4, h5]
+
+/-- … and for the verdict of the extended oracle -/
+theorem pipelineXV_eq_spec_partial (db : Pipe.Db) (p docs : List Val) (v : Verdict)
+    (hD : pipelineReasonsXV db p docs = []) (hs : specPipelineXV db p docs = some v) :
+    v.agrees (Pipe.runPipeline db p docs) :=
+  Pipe.Proofs.pipelineXV_eq_spec db p docs v hD hs
 
 def pipeX : List Val :=
   [.doc [("$match", .doc [("a", .doc [("$gt", .int 1)])])],
